@@ -173,6 +173,12 @@ func runC20(c *Ctx, idx int) {
 			return `<p>` + tc.toks(10) + ` <a href="javascript:void(0)">` + tc.toks(3) + `<span ` + at + ` data-mark="1">` + tc.toks(2) + `</span></a> ` + tc.toks(12) + `</p>`
 		}
 	}
+	// an inline icon whose SVG carries a raw text element (style sheet or script of the
+	// sprite): wordless, skipped by the converter, the same in all three variants
+	icon := func() string {
+		raw := []string{"<style>.i{fill:#123}</style>", "<script>var i=1</script>", "<style>.a{}</style><script>var j=2</script>"}[r.Intn(3)]
+		return `<svg width="16" height="16" viewBox="0 0 16 16">` + raw + `<path d="M0 0h16v16H0z"></path></svg>`
+	}
 	// target amount of remaining content
 	target := 250 + r.Intn(501)
 	if idx%2 == 0 {
@@ -201,6 +207,9 @@ func runC20(c *Ctx, idx int) {
 		} else if r.Intn(12) == 0 && words > 0 {
 			parts = append(parts, around())
 			placement += "around,"
+		} else if r.Intn(14) == 0 {
+			parts = append(parts, icon())
+			placement += "icon,"
 		} else {
 			n := 10 + r.Intn(90)
 			if words+n > target-40 {
@@ -216,6 +225,7 @@ func runC20(c *Ctx, idx int) {
 			}
 		}
 	}
+	joiner := []string{"\n", "", "\n  "}[r.Intn(3)] // pretty-printed or minified source
 	lastIdx := len(parts)
 	parts = append(parts, "") // resizable paragraph
 	if r.Intn(3) == 0 {
@@ -233,7 +243,7 @@ func runC20(c *Ctx, idx int) {
 	build := func(lastLen int) string {
 		lt := &tokCounter{n: 900000}
 		parts[lastIdx] = "<p>" + lt.toks(lastLen) + "</p>"
-		return "<html><head><title>A perfectly ordinary headline here</title></head><body><div>" + strings.Join(parts, "\n") + "</div></body></html>"
+		return "<html><head><title>A perfectly ordinary headline here</title></head><body><div>" + strings.Join(parts, joiner) + "</div></body></html>"
 	}
 	opts := &distiller.Options{OriginalURL: mustURL("http://example.com/dir/page.html"), SkipPagination: true}
 	mkDel := func(D *html.Node) *html.Node {
